@@ -99,6 +99,22 @@ int main(void) {
                     staticMem = malloc(need + 64); cctx = ZSTD_initStaticCCtx((void*)(((size_t)staticMem + 63) & ~(size_t)63), need);
                     if (!cctx) { printf("skip static-init-null\n"); fail = 2; break; }
                 } else cctx = ZSTD_createCCtx();
+                if (run == 1 && !strcmp(variant, "histso")) {
+                    /* same parameters throughout: prior operations (failed one-shot calls, aborted streams, completed frames), then
+                     * ZSTD_CCtx_reset(session_only) - parameters are kept by design, nothing else may be */
+                    int k, nprev = 1 + (int)(vseed % 3); rs = vseed;
+                    strncpy(pcopy, ps, sizeof pcopy - 1); pcopy[sizeof pcopy - 1] = 0; save = NULL;
+                    for (kv = strtok_r(pcopy, ",", &save); kv; kv = strtok_r(NULL, ",", &save)) { int id, val; if (sscanf(kv, "%d=%d", &id, &val) == 2) ZSTD_CCtx_setParameter(cctx, (ZSTD_cParameter)id, val); }
+                    for (k = 0; k < nprev; k++) {
+                        size_t pn = 1000 + rnd() % 300000; unsigned char* pd = (unsigned char*)malloc(pn); unsigned kind = rnd() % 3; unsigned long long keep = rs; size_t pc = ZSTD_compressBound(pn); unsigned char* po = (unsigned char*)malloc(pc);
+                        gen_data(pd, pn, vseed + 11 * (unsigned)k, 0); rs = keep;
+                        if (kind == 0) { ZSTD_compress2(cctx, po, pc / 4 > 8 ? 8 + rnd() % (pc / 4) : 1, pd, pn); }               /* failed operation: destination too small */
+                        else if (kind == 1) { ZSTD_inBuffer ib = { pd, pn / 2, 0 }; ZSTD_outBuffer ob = { po, pc, 0 }; ZSTD_compressStream2(cctx, &ob, &ib, ZSTD_e_continue); }   /* aborted stream */
+                        else ZSTD_compress2(cctx, po, pc, pd, pn);
+                        ZSTD_CCtx_reset(cctx, ZSTD_reset_session_only);
+                        free(pd); free(po);
+                    }
+                }
                 if (run == 1 && (!strcmp(variant, "hist") || !strcmp(variant, "histnr") || !strcmp(variant, "poison"))) {
                     int const noreset = !strcmp(variant, "histnr");   /* only COMPLETED frames before, and no session reset afterwards */
                     /* prior history on this context */
